@@ -131,7 +131,7 @@ func freeRun(st *Stage, inputs [][]int, cp int) (*Case, bool, string) {
 	got := make([][]int, len(outs))
 	closed := make([]bool, len(outs))
 	var cwg sync.WaitGroup
-	deadline := time.Now().Add(20 * time.Second)
+	deadline := time.Now().Add(180 * time.Second) // generous: only a stage that is really stuck gets here
 	for k := range outs {
 		cwg.Add(1)
 		go func(k int) {
@@ -156,7 +156,7 @@ func freeRun(st *Stage, inputs [][]int, cp int) (*Case, bool, string) {
 	go func() { wg.Wait(); close(done) }()
 	select {
 	case <-done:
-	case <-time.After(5 * time.Second):
+	case <-time.After(60 * time.Second):
 		stuck = true
 	}
 	// pseudo-trace
